@@ -195,6 +195,19 @@ func runC10x(c c10Case) *vstat.Failure {
 	before := make([][]c10Snap, len(ms))
 	for i, m := range ms {
 		before[i] = c10Snapshot(m)
+		// the mark in force is the last one set
+		for j, cd := range c.Metrics[i].Data {
+			want := time.Duration(cd.ExpNs)
+			if c.ViaProgram && cd.ExpNs == 1 {
+				want = time.Second
+			}
+			key := fmt.Sprintf("%q", []string{fmt.Sprintf("l%d", j)})
+			for _, b := range before[i] {
+				if b.key == key && b.expiry != want {
+					return vstat.Failf("expiry-mark", "metric %d datum l%d carries expiry %v, the last mark set was %v (re-marked: %v)", i, j, b.expiry, want, cd.Remark)
+				}
+			}
+		}
 	}
 	t0 := time.Now()
 	if err := s.Gc(); err != nil {
